@@ -8,7 +8,7 @@ TU, DI, QI, QT = 'transformations/transformation_utils.py', 'transformations/deq
 
 # which postcondition labels carry which property
 SEL = {
- 'C01': lambda l: any(k in l for k in ('wf:', 'op_id', 'ops-len', 'tensors-len', 'new-op', 'result', 'new-tensor', 'graph-outputs-len')),
+ 'C01': lambda l: any(k in l for k in ('wf:', 'op_id', 'ops-len', 'tensors-len', 'new-op', 'result', 'new-tensor', 'graph-outputs-len', 'unique')),
  'C02': lambda l: any(k in l for k in ('skeleton', 'only-listed', 'graph-outputs', 'graph-inputs', 'tensors-prefix', 'new-tensor', 'new-op-wiring', 'result')),
  'C03': lambda l: any(k in l for k in ('dtypes', 'dtype', 'table', 'widths', 'raises', 'only-up-to', 'new-op-code')),
  'C19': lambda l: any(k in l for k in ('opcodes-extended', 'tensors-prefix', 'skeleton-objects', 'existing-entries', 'grows', 'found-implies', 'prefix-kept', 'tensor-list-object')),
@@ -189,6 +189,7 @@ def small_carriers(rep, prop):
     sel = SEL[prop]; obs = []
     obs += pyvc.verify(rep, prop, core.Fn(TU, 'add_op_code'), graph.AddOpCode(), select=sel)
     obs += pyvc.verify(rep, prop, core.Fn(TU, 'add_new_activation_tensor'), graph.AddActivationTensor(), select=sel)
+    obs += pyvc.verify(rep, prop, core.Fn(TU, 'get_unique_tensor_name'), graph.UniqueName(), select=None)
     return obs
 
 def dtype_tables(rep, prop):
